@@ -79,6 +79,9 @@ enum St {
     Ready,
     /// parked in `wait_for_change` since the given number of successful commits
     Blocked(u64),
+    /// a `try_read` / `try_write` failed (the lock is held by a thread preempted inside its commit); waiting since the
+    /// given number of lock releases
+    LockWait(u64),
     Done,
 }
 
@@ -110,6 +113,20 @@ pub struct Run {
     pub strategy: Strategy,
     pub trace: Option<Vec<Event>>,
     vars: HashMap<usize, usize>,
+    /// lock granularity: the lock acquisitions of `commit` and its write-back phase are decision points
+    pub lockgran: bool,
+    /// locks held by each thread (between its `LockTaken` events and its `CommitDone`)
+    held: Vec<u32>,
+    /// commits that released at least one lock (wakes the threads in `LockWait`)
+    releases: u64,
+    /// the current decision is taken inside a commit (before a lock acquisition / before the write-back)
+    at_lock_point: bool,
+    /// preemptions taken inside a commit, and the largest number of locks the preempted thread was holding
+    pub commit_preemptions: u32,
+    pub max_held_at_preemption: u32,
+    /// failed `try_*` (a thread had to wait for a lock held by a preempted committer)
+    pub lock_waits: u64,
+    pub lock_acquires: u64,
 }
 
 const NOBODY: usize = usize::MAX;
@@ -140,7 +157,7 @@ fn abort_unwind() -> ! {
 }
 
 impl Run {
-    pub fn new(nthreads: usize, max_steps: u64, strategy: Strategy, trace: bool) -> Self {
+    pub fn new(nthreads: usize, max_steps: u64, strategy: Strategy, trace: bool, lockgran: bool) -> Self {
         Run {
             st: vec![St::Ready; nthreads],
             cur_tx: vec![0; nthreads],
@@ -158,6 +175,14 @@ impl Run {
             strategy,
             trace: if trace { Some(vec![]) } else { None },
             vars: HashMap::new(),
+            lockgran,
+            held: vec![0; nthreads],
+            releases: 0,
+            at_lock_point: false,
+            commit_preemptions: 0,
+            max_held_at_preemption: 0,
+            lock_waits: 0,
+            lock_acquires: 0,
         }
     }
 
@@ -165,6 +190,7 @@ impl Run {
         match self.st[t] {
             St::Ready => true,
             St::Blocked(e) => self.commits > e,
+            St::LockWait(e) => self.releases > e,
             St::Done => false,
         }
     }
@@ -251,10 +277,14 @@ impl Run {
         if let Some(c) = cur_en {
             if chosen != c {
                 self.preemptions += 1;
+                if self.at_lock_point {
+                    self.commit_preemptions += 1;
+                    self.max_held_at_preemption = self.max_held_at_preemption.max(self.held[c as usize]);
+                }
             }
         }
         self.schedule.push(chosen);
-        if let St::Blocked(_) = self.st[chosen as usize] {
+        if let St::Blocked(_) | St::LockWait(_) = self.st[chosen as usize] {
             self.st[chosen as usize] = St::Ready;
         }
         Some(chosen as usize)
@@ -400,12 +430,21 @@ impl Shared {
 pub struct ThreadHook {
     pub sh: Arc<Shared>,
     pub tid: usize,
+    /// copy of `Run::lockgran` (events of the lock walk are dropped without taking the scheduler's mutex otherwise)
+    pub lockgran: bool,
 }
 
 impl Hook for ThreadHook {
+    fn thread_id(&self) -> usize {
+        self.tid
+    }
+
     fn event(&self, kind: Kind, key: usize) {
         let tid = self.tid;
         let sh = &*self.sh;
+        if !self.lockgran && matches!(kind, Kind::LockAcquire | Kind::LockTaken | Kind::WriteBack | Kind::Publish) {
+            return; // commit is one step: nobody else runs between CommitStart and CommitDone, every try-lock succeeds
+        }
         if sh.abort.load(Ordering::SeqCst) {
             abort_unwind();
         }
@@ -414,7 +453,9 @@ impl Hook for ThreadHook {
         if g.trace.is_some() {
             let nv = g.vars.len();
             let var = match kind {
-                Kind::FirstRead | Kind::AtomicRead => *g.vars.entry(key).or_insert(nv),
+                Kind::FirstRead | Kind::AtomicRead | Kind::LockAcquire | Kind::LockTaken | Kind::LockWait => {
+                    *g.vars.entry(key & !1).or_insert(nv)
+                }
                 _ => key,
             };
             let name = match kind {
@@ -429,6 +470,17 @@ impl Hook for ThreadHook {
                     }
                 }
                 Kind::RetryBlock => "retry-block",
+                Kind::LockAcquire => {
+                    if key & 1 == 1 {
+                        "lock-write"
+                    } else {
+                        "lock-read"
+                    }
+                }
+                Kind::LockTaken => "locked",
+                Kind::LockWait => "lock-wait",
+                Kind::WriteBack => "all-locked",
+                Kind::Publish => "publish",
             };
             g.trace.as_mut().unwrap().push(Event { tid: tid as u8, kind: name, var });
         }
@@ -436,12 +488,40 @@ impl Hook for ThreadHook {
             Kind::CommitDone => {
                 if key == 1 {
                     g.commits += 1;
-                    let k = g.cur_tx[tid] as u16;
-                    g.commit_order.push((tid as u8, k));
+                    if !g.lockgran {
+                        let k = g.cur_tx[tid] as u16;
+                        g.commit_order.push((tid as u8, k));
+                    }
                 } else {
                     g.retries += 1;
                 }
+                if g.held[tid] > 0 {
+                    g.held[tid] = 0;
+                    g.releases += 1;
+                }
                 return; // bookkeeping only: the next shared-memory step of this thread has its own yield point
+            }
+            Kind::LockTaken => {
+                g.held[tid] += 1;
+                return;
+            }
+            Kind::LockAcquire => g.lock_acquires += 1,
+            Kind::WriteBack => {
+                // lock granularity: all locks held, all reads validated = the serialization point of this commit
+                let k = g.cur_tx[tid] as u16;
+                g.commit_order.push((tid as u8, k));
+            }
+            Kind::Publish => {
+                // the read locks are gone: writers waiting for them may go on
+                if g.held[tid] as usize > key {
+                    g.held[tid] = key as u32;
+                    g.releases += 1;
+                }
+            }
+            Kind::LockWait => {
+                g.lock_waits += 1;
+                let r = g.releases;
+                g.st[tid] = St::LockWait(r);
             }
             Kind::FirstRead => g.first_reads += 1,
             Kind::AtomicRead => g.atomic_reads += 1,
@@ -457,6 +537,7 @@ impl Hook for ThreadHook {
             sh.fail(g, "hang");
             abort_unwind();
         }
+        g.at_lock_point = matches!(kind, Kind::LockAcquire | Kind::WriteBack | Kind::Publish);
         match g.decide(Some(tid)) {
             None => {
                 let why = g.abort.unwrap_or("deadlock");
